@@ -16,18 +16,25 @@ BLOCKS = ['x = 0.5*y + 10\ny = 0.25*x + g\nz = x + y\nexogenous\ng = [20.]*3 + [
           'y = 2\nw = y + 1\nMaxTime = 2']
 
 
-def build_model(alpha, tax, g):
-    mod = Model()
-    can = Country(mod, 'CA', 'Canada')
-    gov = ConsolidatedGovernment(can, 'GOV', 'Government')
-    hh = Household(can, 'HH', 'Household', alpha_income=alpha, alpha_fin=0.4)
-    bus = FixedMarginBusiness(can, 'BUS', 'Business', profit_margin=0.0)
-    Market(can, 'LAB', 'Labour')
-    Market(can, 'GOOD', 'Goods')
-    TaxFlow(can, 'TF', 'Tax', tax)
-    mod.AddExogenous('GOV', 'DEM_GOOD', '[%r]*40' % g)
-    mod.MaxTime = 8
-    return mod
+def build_model(alpha, tax, g, interrupt_at=None, interruption=None):
+    """model SIM, built step by step; `interruption()` (work on OTHER models) runs before construction step `interrupt_at`"""
+    box = {}
+    steps = [lambda: box.__setitem__('mod', Model()),
+             lambda: box.__setitem__('can', Country(box['mod'], 'CA', 'Canada')),
+             lambda: ConsolidatedGovernment(box['can'], 'GOV', 'Government'),
+             lambda: box.__setitem__('hh', Household(box['can'], 'HH', 'Household', alpha_income=alpha, alpha_fin=0.4)),
+             lambda: FixedMarginBusiness(box['can'], 'BUS', 'Business', profit_margin=0.0),
+             lambda: Market(box['can'], 'LAB', 'Labour'),
+             lambda: Market(box['can'], 'GOOD', 'Goods'),
+             lambda: TaxFlow(box['can'], 'TF', 'Tax', tax),
+             lambda: box['mod'].AddExogenous('GOV', 'DEM_GOOD', '[%r]*40' % g),
+             lambda: box['hh'].AddInitialCondition('F', 5.0)]
+    for i, st in enumerate(steps):
+        if interrupt_at == i and interruption is not None:
+            interruption()
+        st()
+    box['mod'].MaxTime = 8
+    return box['mod']
 
 
 def series_of_block(txt, trace=None, resolve=1):
@@ -39,8 +46,10 @@ def series_of_block(txt, trace=None, resolve=1):
     return dict((k, list(v)) for k, v in s.TimeSeries.items())
 
 
-def series_of_model(params):
-    m = build_model(*params)
+def series_of_model(params, interrupt_at=None, interruption=None):
+    m = build_model(*params, interrupt_at=interrupt_at, interruption=interruption)
+    if interrupt_at == 99 and interruption is not None:
+        interruption()
     m.main()
     return dict((k, list(v)) for k, v in m.EquationSolver.TimeSeries.items())
 
@@ -68,17 +77,45 @@ def history(tier, seed, **opts):
     tmp = tempfile.mkdtemp(prefix='c17log_')
     n = 40 if tier == 'quick' else 600
     try:
+        # systematic part: another model started / built / solved before every construction step of model SIM
+        for j in range(len(PARAMS)):
+            for at in [1, 2, 3, 4, 5, 6, 7, 8, 9, 99]:
+                for oname, other in (('Model()', lambda: Model()), ('build', lambda: build_model(*PARAMS[1 - j])), ('build+solve', lambda: series_of_model(PARAMS[1 - j]))):
+                    if tier == 'quick' and oname == 'build':
+                        continue
+                    try:
+                        got = series_of_model(PARAMS[j], interrupt_at=at, interruption=other)
+                        bad = None
+                        if got != ref['models'][j]:
+                            diff = [k for k in got if got[k] != ref['models'][j].get(k)]
+                            bad = 'model %d with %s interposed before construction step %d differs from the reference in %r' % (j, oname, at, diff[:5])
+                    except Exception as ex:
+                        bad = 'model %d with %s interposed before construction step %d raised %s: %s' % (j, oname, at, type(ex).__name__, str(ex)[:200])
+                    r.case(('interposed', j, at, oname), True)
+                    if bad:
+                        r.fail('history', {'interposed': [j, at, oname]}, bad)
+                        return r
         for i in range(n):
             actions = []
             solver = None
             for _ in range(rnd.randint(2, 6)):
-                a = rnd.choice(['block', 'block_traced', 'block_twice', 'model', 'log_on', 'log_off', 'reparse'])
+                a = rnd.choice(['block', 'block_traced', 'block_twice', 'model', 'model_interleaved', 'log_on', 'log_off', 'reparse'])
                 actions.append(a)
             bad = None
             reparse_solver = EquationSolver(BLOCKS[0])
             reparse_solver.SolveEquation()
             for a in actions:
-                if a == 'log_on':
+              try:
+                if a == 'model_interleaved':
+                    # another model is started (or built and solved) in the middle of building this one
+                    j = rnd.randrange(len(PARAMS))
+                    at = rnd.choice([1, 2, 3, 4, 5, 6, 7, 8, 9, 99])
+                    other = rnd.choice([lambda: Model(), lambda: series_of_model(PARAMS[1 - j]), lambda: build_model(*PARAMS[1 - j])])
+                    got = series_of_model(PARAMS[j], interrupt_at=at, interruption=other)
+                    if got != ref['models'][j]:
+                        diff = [k for k in got if got[k] != ref['models'][j].get(k)]
+                        bad = 'model %d built with another model started before construction step %d, after %r, differs from the reference in %r' % (j, at, actions, diff[:5])
+                elif a == 'log_on':
                     try:
                         Logger.register_log(os.path.join(tmp, 'log%d.txt' % rnd.randint(0, 10 ** 9)), 'log')
                         Logger.register_log(os.path.join(tmp, 'step%d.txt' % rnd.randint(0, 10 ** 9)), 'step')
@@ -104,7 +141,9 @@ def history(tier, seed, **opts):
                     got = dict((k, list(v)) for k, v in reparse_solver.TimeSeries.items())
                     if got != ref['blocks'][j]:
                         bad = 're-parsed solver (block %d) after %r: keys %r, reference keys %r' % (j, actions, sorted(got), sorted(ref['blocks'][j]))
-                if bad:
+              except Exception as ex:
+                bad = 'action %r (after %r) raised %s: %s; the isolated reference run raises nothing' % (a, actions, type(ex).__name__, str(ex)[:200])
+              if bad:
                     break
             Logger.cleanup()
             r.case(tuple(actions), len(actions) >= 3, sample={'actions': actions} if i < 2 else None)
